@@ -115,7 +115,9 @@ func (c *Cache) ClearOldEntries(d time.Duration) {
 	defer c.mux.Unlock()
 	for ke, ce := range c.entries {
 		for k, e := range ce.replayMap {
-			if time.Now().UTC().Sub(e.presentedTime) > d {
+			// An entry is needed for as long as its authenticator can still pass the clock skew check,
+			// which is measured against the client's time and not the time it was presented.
+			if time.Now().UTC().Sub(e.cTime) > d {
 				delete(ce.replayMap, k)
 			}
 		}
